@@ -10,7 +10,13 @@ CLAIMED = {}
 def claim(pid, technique, text, note):
     CLAIMED[pid] = (technique, text, note)
 
-exec(open(os.path.join(ROOT, "tools", "claims.py")).read())
+NOT_CLAIMED = {}
+def not_claimed(pid, reason):
+    NOT_CLAIMED[pid] = reason
+
+import glob
+for f in sorted(glob.glob(os.path.join(ROOT, "tools", "claims.d", "*.py"))):
+    exec(open(f).read())
 
 props = [json.loads(l) for l in open(os.path.join(ROOT, "properties.jsonl"))]
 checks, na = [], []
